@@ -429,15 +429,42 @@ def forked(item) -> dict:
     return json.loads(data)
 
 
-def main():
-    payload = json.load(sys.stdin)
-    # the pristine interpreter: everything a query will need is imported, nothing is asked
-    import beartype                        # noqa: F401
+def prepare(draw: int):
+    """The pristine interpreter: every module of the package is imported (beartype imports most of itself
+    lazily, on the first query), nothing is asked."""
+    import importlib
+    import pkgutil
+    import beartype
     import beartype.door                   # noqa: F401
     import beartype.roar                   # noqa: F401
-    import beartype._util.cache.utilcacheclear  # noqa: F401
+    for m in pkgutil.walk_packages(beartype.__path__, 'beartype.'):
+        try:
+            importlib.import_module(m.name)
+        except BaseException:              # noqa: BLE001 - optional third-party integrations
+            pass
+    # the sampler draw is part of a query's arguments: the same constant draw on both sides of every comparison
+    # (bound into generated checkers as a default argument at generation time)
+    import beartype._check.code.codemain as codemain
+    codemain.getrandbits = lambda nbits: draw
     gc.collect()
     gc.freeze()
+
+
+def main():
+    if '--serve' in sys.argv:
+        # one JSON item per input line, one JSON result per output line, until EOF
+        prepare(int(os.environ.get('C14_DRAW', '7')))
+        sys.stdout.write('ready\n')
+        sys.stdout.flush()
+        for line in sys.stdin:
+            line = line.strip()
+            if not line:
+                continue
+            sys.stdout.write(json.dumps(forked(json.loads(line))) + '\n')
+            sys.stdout.flush()
+        return
+    payload = json.load(sys.stdin)
+    prepare(int(payload.get('draw', 7)))
     results = [forked(item) for item in payload['items']]
     sys.stdout.write('\n' + json.dumps({'results': results}) + '\n')
     sys.stdout.flush()
